@@ -134,7 +134,8 @@ def run_kani_unit(unit, scratch, tier, seed, repo, pid=None):
         unwind_fail = [c for c in fails if "unwinding assertion" in c[0]]
         unsupported = [c for c in fails if "unsupported" in c[0].lower() or "not currently supported" in c[0].lower()]
         if h.get("should_panic"):
-            ur.obligations.append(f"{label}/panics-as-documented ({r['nchecks']} checks)")
+            if kind != "bounded":
+                ur.obligations.append(f"{label}/panics-as-documented ({r['nchecks']} checks)")
             if r["status"] != "SUCCESSFUL":
                 ur.failures.append({"obligation": f"{label}/panics-as-documented", "props": h["props"],
                                     "detail": excerpt(out, key), "kind": "kani", "fn": h["name"], "harness": h["name"]})
@@ -150,8 +151,11 @@ def run_kani_unit(unit, scratch, tier, seed, repo, pid=None):
             if sat < h.get("covers", 1) or sat != tot:
                 ur.undecided.append(f"vacuity guard {label}: {sat}/{tot} covers satisfied (expected {h.get('covers')})")
             continue
-        for k in range(r["nchecks"]):
-            ur.obligations.append(f"{label}/check#{k + 1}")
+        if kind != "bounded":      # bounded stand-ins are reported separately and never counted as discharged obligations
+            for k in range(r["nchecks"]):
+                ur.obligations.append(f"{label}/check#{k + 1}")
+        else:
+            ur.bounded[-1] += f" [{r['nchecks']} checks, status {r['status']}]"
         if "covers" in h:
             sat, tot = r["covers"]
             if sat < h["covers"]:
